@@ -6,7 +6,7 @@
      block "attr" : every slot / sub-slot / repository / USE-dependency combination against
                     every slot / sub-slot / repository / IUSE / USE state
      block "key"  : same constraints, different category or package name
-     block "use3" : three USE dependencies (signs x defaults) against all 27 IUSE / USE states of three flags
+     block "use3" : three USE dependencies (signs x defaults) against all 64 IUSE / USE states of three flags
      block "slotop": atoms written with a slot operator (which must not influence matching)
    Sets are written as sequences.                                                       *)
 EXTENDS AtomMatch, TLC, Json, IOUtils, SequencesExt
@@ -51,7 +51,9 @@ SlotForms == IF Size > 1 THEN {<<"", "">>, <<"0", "">>, <<"1", "">>, <<"0", "0">
 Repos == IF Size > 1 THEN {"", "r1", "r2"} ELSE {"", "r1"}
 AttrOps == IF Size > 1 THEN {<<"", V1>>, <<">=", V1r1>>} ELSE {<<"", V1>>}
 AttrAtoms == {J("attr", "atom", "c", "p", ov[1], ov[2], s[1], s[2], r, ds, {}, {}) : ov \in AttrOps, s \in SlotForms, r \in Repos, ds \in DepSets}
-UseStates == {iu \in (SUBSET Flags) \X (SUBSET Flags) : iu[2] \subseteq iu[1]}
+\* <<IUSE, USE>>: USE is NOT confined to IUSE (a package's USE also carries flags it does not declare: arch,
+\* USE_EXPAND values, profile forced flags); for a flag outside IUSE only the (+)/(-) default counts
+UseStates == (SUBSET Flags) \X (SUBSET Flags)
 PkgSlots == IF Size > 1 THEN {"0", "1"} \X {"0", "2"} ELSE {<<"0", "0">>, <<"1", "2">>}
 AttrPkgs == {J("attr", "pkg", "c", "p", "", v, sp[1], sp[2], r, {}, iu[1], iu[2]) :
                v \in (IF Size > 1 THEN {V1, V1r1} ELSE {V1}), sp \in PkgSlots, r \in {"r1", "r2"}, iu \in UseStates}
@@ -63,7 +65,7 @@ Dflt3 == IF Size > 1 THEN {"", "+", "-"} \X {"", "+", "-"} \X {"", "+", "-"}
 Use3Atoms == {J("use3", "atom", "c", "p", "", V1, "", "", "", {D3("x", n[1], d[1]), D3("y", n[2], d[2]), D3("z", n[3], d[3])}, {}, {}) :
                 n \in BOOLEAN \X BOOLEAN \X BOOLEAN, d \in Dflt3}
 Use3Pkgs == {J("use3", "pkg", "c", "p", "", V1, "0", "0", "r1", {}, iu[1], iu[2]) :
-               iu \in {x \in (SUBSET Flags3) \X (SUBSET Flags3) : x[2] \subseteq x[1]}}
+               iu \in (SUBSET Flags3) \X (SUBSET Flags3)}
 \* slot operators (:= :* :0= :0/2=) do not take part in matching: same atoms, written with an operator
 \* (the record carries the operator only for rendering; Matches has no such field)
 OpAtoms == {[J("slotop", "atom", "c", "p", "", V1, s[1], s[2], "", {}, {}, {}) EXCEPT !.slotop = s[3]] :
